@@ -361,7 +361,7 @@ func (m *MonC20) OnStepEnd(w *World, step int) {
 		return
 	}
 	op := w.Script[step]
-	if m.faults == 0 && op.K != "stop" && op.K != "lose" {
+	if m.faults == 0 && op.K != "stop" && op.K != "lose" && op.K != "restart" {
 		// remember whether work is outstanding, for the step at which the fault strikes
 		m.pendingAtFault = w.mq.PendingCount() > 0
 		for _, c := range w.Clients {
@@ -372,7 +372,7 @@ func (m *MonC20) OnStepEnd(w *World, step int) {
 	}
 	// every fault of the history is held to the statement, also one that
 	// strikes a service that was stopped and started before
-	if (op.K == "stop" || op.K == "lose") && !m.stopped {
+	if (op.K == "stop" || op.K == "lose" || op.K == "restart") && !m.stopped {
 		m.faultStep, m.faultKind, m.stopped, m.startStep = step, op.K, true, -1
 		m.faults++
 		m.cycles = append(m.cycles, [2]int{step, -1})
@@ -387,13 +387,15 @@ func (m *MonC20) OnStepEnd(w *World, step int) {
 			}
 		}
 		// the listeners are closed: nothing accepts connections on the ports
-		if w.Port != 0 {
+		if w.Port != 0 && op.K != "restart" {
 			m.class("ports_probed_after_stop")
-			if PortOpen(w.Port) {
-				m.violate(w, "port_open_after_stop", "after %s at step %d the API port %d still accepts connections", op.K, step, w.Port)
+			// (the gateway's own listening sockets: the port number may by now belong
+			// to another process)
+			if OwnListener(w.Port) {
+				m.violate(w, "port_open_after_stop", "after %s at step %d the gateway still listens on the API port %d", op.K, step, w.Port)
 			}
-			if w.MetricsPort != 0 && PortOpen(w.MetricsPort) {
-				m.violate(w, "port_open_after_stop", "after %s at step %d the metrics port %d still accepts connections", op.K, step, w.MetricsPort)
+			if w.MetricsPort != 0 && OwnListener(w.MetricsPort) {
+				m.violate(w, "port_open_after_stop", "after %s at step %d the gateway still listens on the metrics port %d", op.K, step, w.MetricsPort)
 			}
 		}
 		want := "<nil>"
@@ -404,21 +406,29 @@ func (m *MonC20) OnStepEnd(w *World, step int) {
 			m.violate(w, "stop_cause_not_reported", "after %s (fault %d of the history) the stop channel has reported %v, expected one value per fault and the last to contain %q", op.K, m.faults, w.StopSeen, want)
 		}
 	}
-	if op.K == "start" && m.stopped {
+	if (op.K == "start" || op.K == "restart") && m.stopped {
 		m.stopped, m.startStep = false, step
 		m.cycles[len(m.cycles)-1][1] = step
 		if w.Port != 0 && w.Failed == "" {
 			// the restarted gateway listens again (Serve starts on a goroutine)
 			up := false
-			for i := 0; i < 100 && !up; i++ {
-				up = PortOpen(w.Port) && (w.MetricsPort == 0 || PortOpen(w.MetricsPort))
+			for i := 0; i < 1000 && !up; i++ {
+				up = OwnListener(w.Port) && (w.MetricsPort == 0 || OwnListener(w.MetricsPort))
 				if !up {
 					time.Sleep(5 * time.Millisecond)
 				}
 			}
 			m.class("ports_probed_after_start")
-			if !up {
-				m.violate(w, "port_closed_after_start", "after Start at step %d the API port %d / metrics port %d do not accept connections", step, w.Port, w.MetricsPort)
+			switch {
+			case up:
+			case m.portLost(w):
+				w.Failed = "a port of the stopped gateway was taken by another process before the restart"
+			case PortOpen(w.Port) || (w.MetricsPort != 0 && PortOpen(w.MetricsPort)):
+				// another process was handed one of the port numbers while the gateway
+				// was stopped: nothing can be said about this case
+				w.Failed = "a port of the stopped gateway was taken by another process before the restart"
+			default:
+				m.violate(w, "port_closed_after_start", "after Start at step %d the gateway does not listen on the API port %d / metrics port %d (gateway error log: %v)", step, w.Port, w.MetricsPort, w.LogErrors())
 			}
 		}
 	}
@@ -458,7 +468,38 @@ func (m *MonC20) OnLog(w *World, e *LogEntry) {
 	}
 }
 
+// portLost: the restarted gateway could not bind one of its ports although it
+// had released them (checked at the fault): the number was handed to another
+// process meanwhile. The gateway then stops itself, as it should; the rest of
+// the case says nothing.
+func (m *MonC20) portLost(w *World) bool {
+	if w.Port == 0 {
+		return false
+	}
+	for _, v := range m.viols {
+		if v.Class == "port_open_after_stop" {
+			return false
+		}
+	}
+	for _, e := range w.LogErrors() {
+		if strings.Contains(e, "address already in use") {
+			return true
+		}
+	}
+	return false
+}
+
 func (m *MonC20) OnEnd(w *World) []Violation {
+	if m.portLost(w) {
+		if w.Failed == "" {
+			w.Failed = "a port of the stopped gateway was taken by another process before the restart"
+		}
+		return nil
+	}
+	if w.Failed != "" {
+		// the history was cut short by the harness: nothing more is asserted
+		return m.viols
+	}
 	for i, cy := range m.cycles {
 		if cy[1] < 0 {
 			continue
@@ -511,7 +552,7 @@ func c20Post() []Op {
 
 // C20Faults: Stop and loss of the messaging connection.
 func C20Faults(w *World) [][]Op {
-	fs := [][]Op{{{K: "stop"}}, {{K: "lose"}}}
+	fs := [][]Op{{{K: "stop"}}, {{K: "lose"}}, {{K: "restart"}}}
 	// a new WebSocket handshake and HTTP request while Stop is in progress
 	fs = append(fs, []Op{{K: "stop", O: "probe"}})
 	// Stop while the messaging client still delivers an event for a cached resource
